@@ -151,7 +151,9 @@ def gen_random(ctx, rng, chk, inject):
                 rng.choice([s.begin, s.renumber])()
             else:
                 c = rng.randrange(3)
-                if c == 0: s.add(rng.choice(pool), rng.randrange(nattr))
+                if c == 0:
+                    g, a = rng.choice(pool), rng.randrange(nattr)
+                    if (g, a) not in s.keys_in_batch(): s.add(g, a)     # (NDEBUG: the add is executed; equal keys in one batch are unspecified)
                 elif c == 1: s.delete(rng.randrange(len(s.set) + (0 if s.nd else 1)) if (s.set or not s.nd) else 0) if (s.set or not s.nd) else s.end()
                 else: s.end()
     for r in range(rounds):
@@ -242,6 +244,15 @@ def judge(case, impl, spec):
                 sig += ":" + sizeclass(size_before(ops, so, i))
             if b == "EXC InvalidIndexSetState" or a == "EXC InvalidIndexSetState":
                 sig += ":state-check"
+            if k in "VW":
+                # reverse lookup of a local number carried by several pairs: the property ("inverts the map") fixes nothing there;
+                # the spec follows the code (last pair in iteration order wins) -> a difference is model drift, not a violation
+                l = op.split(":")[-1]
+                for j in range(i - 1, -1, -1):
+                    if ops[j][0] == "E" and so[j] == "ok": break
+                    if ops[j][0] == "I":
+                        if len(re.findall(r"\(-?\d+,%s," % l, so[j])) > 1: sig = "corr:C03/reverse-duplicate-locals"
+                        break
             if sig not in seen:
                 seen.add(sig)
                 res.append((sig, {"op_index": i, "op": op, "impl_says": a, "spec_says": b}))
@@ -317,6 +328,7 @@ def run(ctx):
     nviol = ndrift = nundef = nops = 0
     opk, sizes_at_lookup, branches = {}, {}, {"wrong-state-rejected": 0, "RangeError": 0, "NULL": 0, "deleted-visible": 0}
     fresh_for_shrink = {}
+    persig = {}
     nontrivial = set()
     for c, m, a in zip(cases, mo, io):
         mfix, mleg, sp = split_model(m)
@@ -350,9 +362,14 @@ def run(ctx):
             legacy = (a == mleg)
             rep = {"case": c, "impl": a, "model": mfix, "model_legacy_probe_test": mleg, "spec": sp, "oracle": det,
                    "impl_equals_legacy_model": legacy, "replay_cmd": "bin/check C03 --replay <this file>"}
-            if nviol <= 400:
-                ctx.violation(sig, rep)
-            if not any(re.search(k["signature"], sig) for k in known) and sig not in fresh_for_shrink:
+            persig[sig] = persig.get(sig, 0) + 1
+            if persig[sig] <= 3:                       # cap per signature (a known finding must not crowd out anything else)
+                if sig.startswith("corr:"):
+                    rep["broken"] = sig
+                    ctx.violation(sig, rep, found_input=False)
+                else:
+                    ctx.violation(sig, rep)
+            if not any(re.search(k["signature"], sig) for k in known) and sig not in fresh_for_shrink and not sig.startswith("corr:"):
                 fresh_for_shrink[sig] = (c, rep)
         if not verdicts and a != mfix:
             ndrift += 1
@@ -386,7 +403,7 @@ def run(ctx):
                 "non-trivial = some iteration output non-empty; distinct = distinct case lines" % (2 if ctx.quick else 3, NS),
         "samples": [cases[0][:300], cases[len(cases) // 3][:300], cases[-1][:300]],
         "generator_streams": dist, "op_distribution": opk, "set_size_at_probe(5=5+)": sizes_at_lookup, "outcome_counts": branches,
-        "undefined_histories_skipped": nundef, "impl_model_disagreements": ndrift, "oracle_rejections": nviol,
+        "oracle_rejections_by_signature": persig, "undefined_histories_skipped": nundef, "impl_model_disagreements": ndrift, "oracle_rejections": nviol,
         "sanitizer_cases": len(sub), "chunk_sizes": NS, "exhaustive": False,
         "traces_validated_against_impl": len(cases) - nundef,
     })
@@ -399,6 +416,9 @@ def run(ctx):
 
 def replay(ctx, path):
     rep = json.load(open(path))
+    if "case" not in rep:
+        print("no concrete case in this replay file; broken:", rep.get("broken")); print(rep.get("log", "")[-2000:])
+        return 2
     case = rep["case"]
     exes = build(ctx)
     mo, io = run_all(ctx, exes, [case])
